@@ -16,6 +16,14 @@ func fsmSpecFor(c *Ctx, fn string) (fsmSpec, bool) {
 		return fsmSpec{fn: f, stateFld: "state", constName: stateConstsOf(c, fn, "ci")}, true
 	case "ParseUIntVal":
 		return fsmSpec{fn: f, stateFld: "state", constName: stateConstsOf(c, fn, "cl")}, true
+	case "ParseHdrLine":
+		m := stateConstsOf(c, fn, "h")
+		for k, v := range m {
+			if len(v) < 2 || !(v[1] >= 'A' && v[1] <= 'Z') {
+				delete(m, k)
+			}
+		}
+		return fsmSpec{fn: f, stateFld: "state", constName: m}, true
 	case "ParseURI":
 		m := stateConstsOf(c, fn, "u")
 		for k, v := range m {
